@@ -151,6 +151,34 @@ class C19(Check):
         else:
             self.undecided_ob("D1", MOD, save.name, cons, save, "publish idiom not recognised (neither direct write nor temp+replace)")
 
+        # the payload is written: the value handed to the save function is serialised into the handle of the file it opened
+        data_p = save.args.args[1].arg if len(save.args.args) > 1 else None
+        handles = set()
+        for w in ast.walk(save):
+            if isinstance(w, ast.With):
+                for it_ in w.items:
+                    if it_.optional_vars is not None and isinstance(it_.optional_vars, ast.Name):
+                        handles.add(it_.optional_vars.id)
+            if isinstance(w, ast.Assign) and isinstance(w.value, ast.Call) and any(w.value is c_ for _, c_ in opens) and isinstance(w.targets[0], ast.Name):
+                handles.add(w.targets[0].id)
+        wrote = None
+        for c_ in ast.walk(save):
+            if not isinstance(c_, ast.Call):
+                continue
+            f_ = norm(c_.func)
+            args_ = [norm(a_) for a_ in c_.args] + [norm(k_.value) for k_ in c_.keywords]
+            if f_.split(".")[-1] == "dump" and len(c_.args) >= 2 and norm(c_.args[0]) == data_p and norm(c_.args[1]) in handles:
+                wrote = c_
+            elif isinstance(c_.func, ast.Attribute) and c_.func.attr in ("write", "write_bytes") and data_p and any(data_p in a_ for a_ in args_) \
+                    and (norm(c_.func.value) in handles or c_.func.attr == "write_bytes"):
+                wrote = c_
+        if data_p is None or not opens:
+            pass
+        elif wrote is not None:
+            self.holds("D1", MOD, save.name, "payload-written", wrote, f"`{norm(wrote)[:60]}` serialises the value into the opened file")
+        else:
+            self.violated("D1", MOD, save.name, "payload-written", opens[0][1], f"the value `{data_p}` is never serialised into the file that is opened and published: every key gets an empty file",
+                          witness="scan.steady_state(..., cache=Cache()) twice: the second run fails with EOFError while loading")
         # the trusted name comes into existence only through the save function: nothing in the hit/miss routine creates it beforehand
         exist_paths = {norm(c.func.value) for c in ast.walk(lor) if isinstance(c, ast.Call) and isinstance(c.func, ast.Attribute) and c.func.attr in ("exists", "is_file")}
         CREATORS = ("touch", "write_bytes", "write_text", "open", "mkdir", "symlink_to", "hardlink_to", "link_to")
